@@ -42,8 +42,9 @@ func init() {
 		runner.Part{Scenario: "simhost", Params: p("pmember", "12", "hosts", "5", "pcrash", "6"), Share: 1})
 	sh("C11", 90, 1200, runner.Part{Scenario: "simhost", Params: p("smyield", "500", "pstop", "6", "psnapreq", "10"), Share: 2},
 		runner.Part{Scenario: "simhost", Params: p("smyield", "300", "pcrash", "6"), Share: 1})
-	sh("C12", 90, 1200, runner.Part{Scenario: "simhost", Params: p("pstop", "4", "timeout", "30"), Share: 1},
-		runner.Part{Scenario: "simhost", Share: 1})
+	sh("C12", 90, 1200, runner.Part{Scenario: "simhost", Params: p("pstop", "4", "timeout", "30"), Share: 2},
+		runner.Part{Scenario: "simhost", Share: 2},
+		runner.Part{Scenario: "l0/pending", Share: 1})
 	sh("C17", 90, 1200, runner.Part{Scenario: "simhost", Share: 2},
 		runner.Part{Scenario: "simhost", Params: p("pmember", "10", "ptransfer", "8", "ppartition", "8"), Share: 1})
 	sh("C18", 90, 1200, runner.Part{Scenario: "simhost", Params: p("pmember", "20", "hosts", "5"), Share: 1},
